@@ -59,6 +59,63 @@ fn menv_mixed(n: usize, seed: u64, variant: u32) -> Vec<usize> {
     }).collect()
 }
 
+/// One step of a batch of `n` instructions with the generator freshly seeded with `seed`, on an
+/// environment that has already taken `prior` steps with batches of `prior_size` instructions (driven by
+/// another generator).  `content` selects what the instructions are:
+///   0 / 1  all new orders (two different price / side / volume patterns)
+///   2      new orders, each odd instruction cancelling the order placed by the instruction before it
+///          (a cancellation of an order created in the same step)
+///   3      new orders, each odd instruction modifying the order placed by the instruction before it
+/// Returns the index permutation (perm[k] = submission index processed k-th), read from the hook.
+fn batch_perm(multi: bool, n: usize, seed: u64, content: u32, prior: usize, prior_size: usize) -> Vec<usize> {
+    let mut rng0 = R::seed_from_u64(seed ^ 0xABCD_EF01);
+    let mut rng = R::seed_from_u64(seed);
+    macro_rules! drive {
+        ($env:ident, $place:expr, $cancel:expr, $modify:expr, $sched:expr) => {{
+            for s in 0..prior {
+                for i in 0..prior_size { $place(&mut $env, i, Side::Bid, 1 + (i + s) as u32 % 3, 10 + (i as u32 % 5)); }
+                $env.step(&mut rng0);
+            }
+            let mut expect = Vec::new();
+            let mut last = None;
+            for i in 0..n {
+                if content >= 2 && i % 2 == 1 {
+                    let id = last.unwrap();
+                    if content == 2 { expect.push($cancel(&mut $env, id)); } else { expect.push($modify(&mut $env, id, 300 + i as u32)); }
+                } else {
+                    let (side, price) = if content == 1 && i % 3 == 0 { (Side::Bid, 20 + i as u32 % 4) } else { (Side::Ask, 200 + (i as u32 * 7) % 13) };
+                    let (id, e) = $place(&mut $env, i, side, 1 + (i as u32 + content) % 4, price);
+                    last = Some(id);
+                    expect.push(e);
+                }
+            }
+            $env.step(&mut rng);
+            let sched = $sched(&$env);
+            let mut used = vec![false; n];
+            sched.iter().map(|x| {
+                let k = (0..n).find(|k| !used[*k] && expect[*k] == *x).expect("harness: schedule entry not in the batch");
+                used[k] = true;
+                k
+            }).collect::<Vec<usize>>()
+        }};
+    }
+    if multi {
+        let mut env: MarketEnv<2, 1> = MarketEnv::new(0, [1, 1], 1_000_000, true);
+        drive!(env,
+            |e: &mut MarketEnv<2, 1>, i: usize, side, vol, price| { let id = e.place_order(i % 2, side, vol, 3, Some(price)).unwrap(); (id, (0u8, id, None::<u32>, None::<u32>)) },
+            |e: &mut MarketEnv<2, 1>, id: (usize, usize)| { e.cancel_order(id); (1u8, id, None::<u32>, None::<u32>) },
+            |e: &mut MarketEnv<2, 1>, id: (usize, usize), p: u32| { e.modify_order(id, Some(p), None); (2u8, id, Some(p), None::<u32>) },
+            |e: &MarketEnv<2, 1>| e.verif_schedule().to_vec())
+    } else {
+        let mut env: Env<1> = Env::new(0, 1, 1_000_000, true);
+        drive!(env,
+            |e: &mut Env<1>, _i: usize, side, vol, price| { let id = e.place_order(side, vol, 3, Some(price)).unwrap(); (id, (0u8, id, None::<u32>, None::<u32>)) },
+            |e: &mut Env<1>, id: usize| { e.cancel_order(id); (1u8, id, None::<u32>, None::<u32>) },
+            |e: &mut Env<1>, id: usize, p: u32| { e.modify_order(id, Some(p), None); (2u8, id, Some(p), None::<u32>) },
+            |e: &Env<1>| e.verif_schedule().to_vec())
+    }
+}
+
 fn perm_table(env: &str, n: usize, trials: u64, base: u64, f: &dyn Fn(usize, u64, u32) -> Vec<usize>) -> Value {
     let mut counts: BTreeMap<Vec<usize>, u64> = BTreeMap::new();
     for t in 0..trials {
@@ -131,6 +188,28 @@ fn main() {
                     "perm_a2": menv_mixed(n, seed, 0), "perm_b": menv_mixed(n, seed, 1)}), &mut f);
             }
         }
+    }
+    // the same, for batches that refer to orders created in the same step and for environments with a
+    // history: the index permutation is a function of the generator state and the batch size only
+    for multi in [false, true] {
+        for n in [2usize, 3, 4, 6, 9, 16] {
+            for s in 0..12u64 {
+                let seed = base ^ (s * 104_729 + n as u64 * 31 + multi as u64);
+                let labels = ["fresh", "fresh again", "other new orders", "cancels of orders created in the same step",
+                    "modifies of orders created in the same step", "after 1 step of the same batch size", "after 3 steps of the same batch size",
+                    "after 2 steps of another batch size", "same-step cancels after 2 steps of the same batch size"];
+                let perms = vec![batch_perm(multi, n, seed, 0, 0, 0), batch_perm(multi, n, seed, 0, 0, 0), batch_perm(multi, n, seed, 1, 0, 0),
+                    batch_perm(multi, n, seed, 2, 0, 0), batch_perm(multi, n, seed, 3, 0, 0), batch_perm(multi, n, seed, 0, 1, n),
+                    batch_perm(multi, n, seed, 1, 3, n), batch_perm(multi, n, seed, 0, 2, n + 1), batch_perm(multi, n, seed, 2, 2, n)];
+                emit(json!({"kind": "det2", "env": if multi { "menv" } else { "env" }, "n": n, "seed": seed.to_string(), "labels": labels, "perms": perms}), &mut f);
+            }
+        }
+    }
+    // all n! permutations of batches that cancel orders created in the same step (n = 2..4)
+    let trials = 24_000 * scale;
+    for n in 2..=4usize {
+        emit(perm_table("env_same_step", n, trials, base ^ (0xC0 + n as u64) << 32, &|n, seed, _v| batch_perm(false, n, seed, 2, 0, 0)), &mut f);
+        emit(perm_table("menv_same_step", n, trials, base ^ (0xD0 + n as u64) << 32, &|n, seed, _v| batch_perm(true, n, seed, 2, 1, n)), &mut f);
     }
     f.flush().unwrap();
     println!("{}", json!({"tables": tables, "cells": cells, "steps": steps}));
